@@ -257,7 +257,7 @@ def run(ctx):
     ctx.require(called, "run()'s exception arm does not call ExceptionTrace.render any more")
     taint_rule(ctx, "C04-R4", [run_fn, rend],
                "in the error report written by run()'s exception arm, text that is not authored markup never reaches a "
-               "markup-interpreting sink that can raise (else the failure of the report escapes run())", reference=40)
+               "markup-interpreting sink that can raise (else the failure of the report escapes run())", reference=41)
 
     # ---------------------------------------------------------------- R7
     from .c20 import theme_null_rule
